@@ -154,6 +154,19 @@ def plan(tier, seed):
             specs.append(gen_spec(r, flavor, max_connections=n, n_origins=n + 2, n_callers=r.randint(2 * n, 4 * n),
                                   reqs=r.randint(2, 4)))
         cases.append({"flavor": flavor, "specs": specs, "seed": r.randrange(1 << 30)})
+    # HTTP/2 connections that the server shuts down (GOAWAY) early, while other streams on them are still in flight and
+    # the pool is at its limit: a connection on its way out still holds its place until it is really closed
+    for i in range(8 if tier == "quick" else 80):
+        flavor = ["asyncio", "trio"][i % 2]
+        specs = []
+        for _ in range(per):
+            n = r.choice([1, 1, 2])
+            script = {"actions": [{"when": [r.choice(["head", "end"]), r.randrange(0, 3)], "do": "goaway",
+                                   "last": r.choice(["this", "prev", "prev", 2 ** 31 - 1])}]}
+            specs.append(gen_spec(r, flavor, proto="h2", proxy=r.choice([None, None, "tun"]), max_connections=n, n_origins=r.choice([1, 1, 2]),
+                                  n_callers=r.randint(3, 6), reqs=r.randint(2, 4), h2_script=script, fault_ops=[], connect_fail=0.0,
+                                  behaviours=["read", "head-only", "partial", "partial", "post", "read"], resp_delay=r.choice([0.1, 0.5])))
+        cases.append({"flavor": flavor, "specs": specs, "seed": r.randrange(1 << 30)})
     # the synchronous pool under threads
     n_thr, n_specs, n_scheds = (16, 4, 6) if tier == "quick" else (160, 8, 12)
     for i in range(n_thr):
